@@ -282,6 +282,11 @@ func C13(r *eng.Run) {
 	})
 	r.Phase("MarshalJSON and round trips", t0, nil)
 
+	// R: values reached by operation sequences
+	reachedPhase(r, "R values reached by operation sequences", reachedAll(r), func(w *eng.W, b ref.Bits, v ref.Val) {
+		checkMarshalJSON(w, b, v, b[15]%16 == 0)
+	})
+
 	// all strings up to N
 	t0 = time.Now()
 	alpha := []byte("019.eE+-_nul\"[t")
